@@ -183,6 +183,8 @@ def _run_sx_case(case, func, res, tier, seed, known):
     from pvlib.sx.engine import SymEngine
 
     opts = dict(case.get("opts") or {})
+    # a sample of the discharged obligations of every case is re-decided by a second solver
+    opts.setdefault("cross_check", 6 if tier == "thorough" else 2)
     if tier == "thorough":
         opts.setdefault("query_timeout_ms", 60000)
         opts["max_paths"] = opts.get("max_paths", 4000) * 4
@@ -503,6 +505,7 @@ def finish(prop, tier, seed, mod, cases, results, known, wall):
             "harness_errors": [e[:1500] for e in errors[:10]],
             "code_under_test": repo_fingerprint(),
             "solver": "z3 " + _z3_version(),
+            "second_solver_cross_check": {"solver": "cvc5 (python API, tlimit 4 s per query)", "sampled_unsat_queries": tot.xcheck_agree + tot.xcheck_unknown + tot.xcheck_disagree, "agree_unsat": tot.xcheck_agree, "unknown_or_unsupported": tot.xcheck_unknown, "disagree": tot.xcheck_disagree},
             "exit_status": status,
         },
         "assumptions": meta.get("assumptions", [])
